@@ -3,6 +3,7 @@ package main
 import (
 	"fmt"
 	"go/constant"
+	"go/token"
 	"go/types"
 	"sort"
 	"strings"
@@ -811,3 +812,121 @@ func ruleArchivedBytesAreSourceBytes(p *Program, r *Report) {
 }
 
 func init() { register("C15", Rule{"R15g", ruleArchivedBytesAreSourceBytes}) }
+
+// R15h: the archive location of a remote import is a one-to-one function of its URL, and the recorder and the
+// bundle run compute it the same way.  Both strip the scheme and join the rest under the module directory.  Any
+// other step (parsing the URL and dropping the port, the query or the case of the host) maps two URLs to one
+// entry: the archive keeps the first file written and a bundle run reads it for both imports.
+func ruleRemoteLocationInjective(p *Program, r *Report) {
+	r.Begin("R15h", "remote archive locations: in bundleRemoteFile (recorder) and importURL (bundle run) the archive location derives from the URL parameter only through scheme removal (strings.TrimPrefix), path.Join / Clean and string concatenation — followed into package-local helpers — and both sites apply the same steps; any other transformation (net/url parsing, Replace, Split, ToLower …) can map two URLs to one entry", 2)
+	defer r.End()
+	type site struct {
+		fn    *ssa.Function
+		steps []string
+	}
+	var sites []site
+	for _, name := range []string{"bundleRemoteFile", "importURL"} {
+		fn := p.Func("syntax", name)
+		if fn == nil {
+			r.Undecided("anchor@"+name, "syntax."+name+" not found", 0)
+			continue
+		}
+		var url *ssa.Parameter
+		for _, q := range fn.Params {
+			if b, ok := q.Type().Underlying().(*types.Basic); ok && b.Kind() == types.String {
+				url = q
+				break
+			}
+		}
+		if url == nil {
+			r.Undecided("param@"+name, "no string parameter", fn.Pos())
+			continue
+		}
+		r.Fn(FnName(fn))
+		st := site{fn: fn}
+		bad := ""
+		var badPos token.Pos
+		seen := map[*ssa.Function]bool{}
+		var scan func(f *ssa.Function, prm ssa.Value, depth int)
+		scan = func(f *ssa.Function, prm ssa.Value, depth int) {
+			if seen[f] || depth > 3 {
+				return
+			}
+			seen[f] = true
+			ForEachInstr(f, func(ins ssa.Instruction) {
+				c, ok := ins.(*ssa.Call)
+				if !ok {
+					return
+				}
+				argIdx := -1
+				for i, a := range c.Call.Args {
+					if DependsOn(a, func(y ssa.Value) bool { return y == prm }) {
+						argIdx = i
+						break
+					}
+				}
+				if argIdx < 0 {
+					return
+				}
+				g := c.Call.StaticCallee()
+				nm := CalleeName(&c.Call)
+				// only steps whose result is text can end up in the location
+				if b, isB := c.Type().Underlying().(*types.Basic); !isB || b.Info()&types.IsString == 0 {
+					// a non-string result derived from the URL (a parsed URL, a split) matters only if text comes back out of it
+					if g != nil && !InRepo(g) && g.Pkg != nil && (g.Pkg.Pkg.Path() == "net/url" || g.Pkg.Pkg.Path() == "strings" && (g.Name() == "Split" || g.Name() == "Fields" || strings.HasPrefix(g.Name(), "Cut"))) {
+						if bad == "" {
+							bad, badPos = nm, c.Pos()
+						}
+					}
+					if g != nil && InRepo(g) && g.Pkg == fn.Pkg && g.Blocks != nil && argIdx < len(g.Params) && isRecorderOrReader(g) == false {
+						scan(g, g.Params[argIdx], depth+1)
+					}
+					return
+				}
+				switch {
+				case nm == "strings.TrimPrefix":
+					k := ""
+					if len(c.Call.Args) > 1 {
+						if kc, ok := c.Call.Args[1].(*ssa.Const); ok && kc.Value != nil && kc.Value.Kind() == constant.String {
+							k = constant.StringVal(kc.Value)
+						}
+					}
+					st.steps = append(st.steps, "TrimPrefix("+k+")")
+				case nm == "path.Join" || nm == "path/filepath.Join" || nm == "path.Clean" || nm == "path/filepath.Clean" || nm == "path/filepath.FromSlash" || nm == "path/filepath.ToSlash":
+					st.steps = append(st.steps, nm)
+				case g != nil && InRepo(g) && g.Pkg == fn.Pkg && g.Blocks != nil && argIdx < len(g.Params):
+					scan(g, g.Params[argIdx], depth+1)
+				default:
+					if bad == "" {
+						bad, badPos = nm, c.Pos()
+					}
+				}
+			})
+		}
+		scan(fn, url, 0)
+		sort.Strings(st.steps)
+		sites = append(sites, st)
+		r.Check(bad == "", "one-to-one@"+name, "scheme removal and joining only: "+strings.Join(st.steps, ", "), fmt.Sprintf("%s derives the archive location of a remote file through %s: two different URLs (other port, query, host spelling) can then share one archive entry, which keeps the first file written — the bundle run reads that file for both imports", FnName(fn), bad), func() token.Pos {
+			if bad != "" {
+				return badPos
+			}
+			return fn.Pos()
+		}())
+	}
+	if len(sites) == 2 {
+		a, b := strings.Join(sites[0].steps, ", "), strings.Join(sites[1].steps, ", ")
+		// the reader also appends the default extension etc. through fileValue, which is not a step on the location here
+		r.Check(a == b, "siblings", "recorder and bundle run apply the same steps: "+a, fmt.Sprintf("the recorder derives the location by {%s}, the bundle run by {%s}: a remote file is archived under one name and looked up under another", a, b), sites[0].fn.Pos())
+	}
+}
+
+// isRecorderOrReader: callees that consume a location rather than compute one.
+func isRecorderOrReader(g *ssa.Function) bool {
+	switch g.Name() {
+	case "fileValue", "bytesValue", "bundleRemoteFile", "bundleLocalFile", "bundleModule":
+		return true
+	}
+	return false
+}
+
+func init() { register("C15", Rule{"R15h", ruleRemoteLocationInjective}) }
